@@ -120,6 +120,8 @@ class ArithHooks(Hooks):
         self.snap = {}
         self.results = {}      # id -> (fn, args signature, MS result)
         self.results_canon = []
+        self.touched = set()
+        self.gen = {}          # '@id' -> number of content assignments so far (results before/after are different operands)
 
     def _snapshot(self, it):
         L = it.L
@@ -153,6 +155,13 @@ class ArithHooks(Hooks):
                 it.violate('C13.operands', {'fn': fn, 'what': 'representation-changed' if same_phys else 'content-changed',
                                             'role': self._role(ev, k)},
                            '%s changed spectrum %s (%s -> %s, %d -> %d samples)' % (fn, k, m.unit, new[k].unit, len(m.wave), len(new[k].wave)), i)
+        if fn == 'setattr' and out.ok:
+            self.gen[ev['a'][0]] = self.gen.get(ev['a'][0], 0) + 1
+            it.fault('assign')
+        if ev.get('t', {}).get('after_assign'):
+            it.probe('op_repeated_after_assignment')
+        if ev.get('id') and any(self.gen.get('@' + r, 0) for r in it.event_refs(ev)):
+            self.touched.add(ev['id'])      # an operand's content was re-assigned by its owner before this call
         if opname is None:
             return
         a_ref, b_ref = ev['a'][0], ev['a'][1]
@@ -230,6 +239,8 @@ class ArithHooks(Hooks):
         elif spec_a or spec_b:
             it.probe('check:scalar')
             it.probe('scalar_op')
+            if np.ndim(b if spec_a else a) == 0 and (b if spec_a else a) in (0, 1):
+                it.probe('identity_scalar')
             sref = a_ref if spec_a else b_ref
             ms = self.snap.get(sref[1:])
             other = b if spec_a else a
@@ -259,14 +270,15 @@ class ArithHooks(Hooks):
         if not label_meaningful(opname, ma.vunit, mb.vunit, fill):
             it.probe('unit_algebra_undefined')
             return
-        rec = {'key': key, 'rm': rm, 'ua': ma.unit, 'ub': mb.unit, 'amb': ambiguous, 'vsame': ma.vunit == mb.vunit}
+        rec = {'key': key, 'rm': rm, 'ua': ma.unit, 'ub': mb.unit, 'amb': ambiguous, 'vsame': ma.vunit == mb.vunit,
+               'gen': (self.gen.get(a_ref, 0), self.gen.get(b_ref, 0))}
         ends = ends_m(ma, mb)
         for old in self.results_canon:
             ok_opts = (old['key'][4], old['key'][5]) == (method, fill)
             if old['amb'] or ambiguous or not ok_opts:
                 continue
             # unit independence: same operands, same options, operands meanwhile expressed in other units
-            if old['key'] == key and (old['ua'], old['ub']) != (ma.unit, mb.unit):
+            if old['key'] == key and (old['ua'], old['ub']) != (ma.unit, mb.unit) and old['gen'] == (self.gen.get(a_ref, 0), self.gen.get(b_ref, 0)):
                 it.probe('check:unit_free')
                 it.probe('op_repeated_after_to')
                 ok, why = same_physical(rm, old['rm'], ends=ends)
@@ -277,7 +289,8 @@ class ArithHooks(Hooks):
             # commutativity: b op a with left/right swapped
             swapped = {'left': 'right', 'right': 'left'}.get(samp, samp)
             if opname in ('add', 'multiply') and old['key'][0] == opname and old['key'][1] == b_ref and old['key'][2] == a_ref \
-                    and old['key'][3] == swapped and rec['vsame'] and (old['ua'], old['ub']) == (mb.unit, ma.unit):
+                    and old['key'][3] == swapped and rec['vsame'] and (old['ua'], old['ub']) == (mb.unit, ma.unit) \
+                    and old['gen'] == (self.gen.get(b_ref, 0), self.gen.get(a_ref, 0)):
                 it.probe('check:commute')
                 it.probe('commuted_pair')
                 ok, why = same_physical(rm, old['rm'], ends=ends)
@@ -308,7 +321,7 @@ class SpectrumArithScenario(Scenario):
                    'scipy.interpolate.interp1d is the trusted interpolation reference; two-element fill values are not generated for binary '
                    'operators (the statement speaks of "the fill value")']
     must_hit = ['pair:nm-nm', 'pair:nm-um', 'pair:angstrom-um', 'pair:m-nm', 'disjoint_ranges', 'sampling:left', 'sampling:right', 'sampling:float',
-                'op_repeated_after_to', 'commuted_pair', 'scalar_op']
+                'op_repeated_after_to', 'commuted_pair', 'scalar_op', 'op_repeated_after_assignment', 'identity_scalar']
     probe_names = must_hit + ['coldwarm_audit', 'ambiguous_grid', 'pair:um-um', 'pair:angstrom-nm', 'pair:m-um', 'pair:angstrom-m']
 
     # ---------------------------------------------------------------- generation
@@ -421,11 +434,13 @@ class SpectrumArithScenario(Scenario):
                 kind = rng.choice(['scalar', 'scalar', 'vector', 'rscalar', 'bad-length', 'bad-type'])
                 sym = [x for x, o in DUNDER.items() if o == opname][0]
                 if kind == 'scalar':
-                    E(rng.choice([sym, 'Spectrum.' + opname]), ['@' + s['id'], rng.choice([2, 0.5, 3.0, 1.5])], t={'expect': 'ok'})
+                    E(rng.choice([sym, 'Spectrum.' + opname]), ['@' + s['id'], rng.choice([2, 0.5, 3.0, 1.5, 0, 1, 1.0, 0.0])], t={'expect': 'ok'})
+                    mine.append(prog[-1]['id'])
                 elif kind == 'vector':
                     E(rng.choice([sym, 'Spectrum.' + opname]), ['@' + s['id'], [round(rng.uniform(0.5, 2), 2) for _ in range(s['n'])]], t={'expect': 'ok'})
                 elif kind == 'rscalar':
-                    E('s*', [rng.choice([2, 0.25]), '@' + s['id']], t={'expect': 'ok'})
+                    E('s*', [rng.choice([2, 0.25, 1, 1.0]), '@' + s['id']], t={'expect': 'ok'})
+                    mine.append(prog[-1]['id'])
                 elif kind == 'bad-length':
                     E(rng.choice([sym, 'Spectrum.' + opname]), ['@' + s['id'], [1.0] * (s['n'] + rng.choice([1, 2]))],
                       t={'expect': 'refuse', 'why': 'vector-length'})
@@ -445,6 +460,17 @@ class SpectrumArithScenario(Scenario):
                     d = copy.deepcopy(rng.choice(earlier))
                     d['id'] = nid('rep')
                     d.setdefault('t', {})['dup'] = True
+                    prog.append(d)
+            elif r < 0.73 and c == 0:
+                s = rng.choice(pool)
+                newv = [round(rng.uniform(0.2, 2.0), 3) for _ in range(s['n'])]
+                prog.append({'c': c, 'fn': 'setattr', 'a': ['@' + s['id'], 'value', newv], 'id': nid('set'), 'inplace': ['@' + s['id']], 't': {'assign': True}})
+                earlier = [x for x in prog if op_of(x['fn']) and ('@' + s['id']) in x['a'] and x.get('t', {}).get('expect') == 'ok'
+                           and all(isinstance(y, str) for y in x['a']) and not isinstance(x.get('k', {}).get('sampling'), float)]
+                if earlier:
+                    d = copy.deepcopy(rng.choice(earlier))
+                    d['id'] = nid('rep')
+                    d.setdefault('t', {})['after_assign'] = True
                     prog.append(d)
             elif r < 0.78 and mine:
                 rid = rng.choice(mine)
@@ -517,6 +543,12 @@ class SpectrumArithScenario(Scenario):
             E('s*', ['@S0', 2.0])
             E('s/', ['@S0', [1, 2, 3, 4, 5, 6, 7]])
             E('s*', [3, '@S0'])
+            E('s+', ['@S0', 0])
+            E('s*', ['@S0', 1.0])
+            E('s*', [1, '@S0'])
+            events.append({'c': 0, 'fn': 'Spectrum.to', 'a': ['@p%d' % n[0], 'um' if units[0] != 'um' else 'nm'], 'id': 'edit_identity', 'inplace': ['@p%d' % n[0]]})
+            events.append({'c': 0, 'fn': 'setattr', 'a': ['@S1', 'value', [0.9, 0.1, 0.5, 0.7, 0.2, 0.6]], 'id': 'set1', 'inplace': ['@S1'], 't': {'assign': True}})
+            E('s*', ['@S0', '@S1'], t={'expect': 'ok', 'after_assign': True})
             E('s+', ['@S0', [1.0, 2.0]], t={'expect': 'refuse', 'why': 'vector-length'})
             other = 'um' if units[0] != 'um' else 'nm'
             events.append({'c': 0, 'fn': 'Spectrum.to', 'a': ['@S0', other], 'id': 'to1', 'inplace': ['@S0'], 't': {'repr': True}})
@@ -555,7 +587,7 @@ class SpectrumArithScenario(Scenario):
                 solo.run(solo_events(run['events'], c))
                 it.probe('check:serial')
                 for ev in run['events']:
-                    if ev.get('c') != c or not ev.get('id'):
+                    if ev.get('c') != c or not ev.get('id') or ev['id'] in hooks.touched:
                         continue
                     x, y = it.store.get(ev['id']), solo.store.get(ev['id'])
                     if (x is None) != (y is None):
